@@ -379,6 +379,86 @@ def skip_auth_initiator_case(ck, seed, vi, rng, auth='psk'):
     return label
 
 
+GW2, PEER_C, PEER_D = '192.0.2.20', '192.0.2.30', '192.0.2.31'
+BUSY_CASES = [('A', S.A4, S.B4, 'rsa:a', True), ('A', S.A4, GW2, 'psk:two', True), ('A', S.A4, GW2, 'rsa:a', False), ('A', S.A4, S.B4, 'psk:two', False),
+              ('C', PEER_C, S.B4, 'rsa:c', True), ('C', PEER_C, S.B4, 'rsa:a', False), ('D', PEER_D, S.B4, 'rsa:d', True), ('D', PEER_D, S.B4, 'rsa:a', False),
+              ('D', PEER_D, S.B4, 'rsa:c', False), ('C', PEER_C, S.B4, 'rsa:d', False), ('C', PEER_C, GW2, 'rsa:c', None), ('A', S.A4, S.B4, 'rsa:c', False)]
+
+
+def busy_gateway_case(ck, seed, vi, rng):
+    """A gateway with TWO local addresses and FOUR connections: two of them to the same remote host (one per local address, different credentials), three whose peers
+    present the SAME identity text with different RSA keys. An independent initiator presents, from each peer address to each local address, the credential of its own
+    connection (control: accepted) and the credential of a NEIGHBOURING connection (refused): the credential that counts is the one of the connection between exactly
+    that pair of addresses, whatever the order in which the connections are written."""
+    who, src, dst, cred, valid = BUSY_CASES[vi % len(BUSY_CASES)]
+    rot = (vi // len(BUSY_CASES)) % 4
+    ident = 'roadwarrior@example.org'
+    _ca, cb = S.pair_conf(auth='rsa')
+    base = cb['conn']
+    keys = {t: S.rsa_pair(t) for t in 'abcd'}
+
+    def conn(my, peer, peer_auth, index):
+        c = copy.deepcopy(base)
+        c.update(my_addr=my, peer_addr=peer, peer_auth=peer_auth)
+        c['my_auth'] = {'id': 'bob.example.org', 'privkey': keys['b'][0]}
+        c['protect'][0]['index'] = index
+        return c
+    conns = [('one', conn(S.B4, S.A4, {'id': ident, 'pubkey': keys['a'][1]}, 11)), ('two', conn(GW2, S.A4, {'id': ident, 'psk': 'psk-of-connection-two'}, 12)),
+             ('three', conn(S.B4, PEER_C, {'id': ident, 'pubkey': keys['c'][1]}, 13)), ('four', conn(S.B4, PEER_D, {'id': ident, 'pubkey': keys['d'][1]}, 14))]
+    conns = conns[rot:] + conns[:rot]
+    sim = S.Sim(seed)
+    try:
+        g = sim.add('G', [S.B4, GW2], dict(conns))
+    except Exception as ex:
+        ck.count('busy_gateway.configuration_refused')
+        ck.seen('busy_gateway.refusals', type(ex).__name__)
+        return
+    sim.case = {'family': 'busy-gateway', 'from': src, 'to': dst, 'credential_presented': cred, 'order_of_the_connections': [n_ for n_, _c in conns]}
+    p = party.RefParty(src, dst, rng)
+    trs = [{'type': 1, 'id': 12, 'keylen': 256}, {'type': 3, 'id': 12, 'keylen': None}, {'type': 2, 'id': 5, 'keylen': None}, {'type': 4, 'id': 19, 'keylen': None}]
+    sim.inject(g, src, dst, p.init_request(trs, 19))
+    res = next((d.data for d in sim.net if d.dst == src), None)
+    sim.net.clear()
+    ck.count('busy_gateway.cases')
+    ck.seen('busy_gateway.kinds', (who, dst, cred, rot))
+    ck.nontrivial(('busy-gateway', who, dst, cred, rot))
+    if res is None or not p.take_init_response(res):
+        if valid:
+            ck.violation('busy-gateway:handshake-of-a-configured-pair-of-addresses-not-answered', {'from': src, 'to': dst}, sim.case)
+        else:
+            ck.count('busy_gateway.not_answered')
+        return
+    idt, idd = 3, ident.encode()
+    octs = ikecrypto.signed_octets(p.suite['prf'], p.init_req, p.nr, p.keys['sk_pi'], party.id_body(idt, idd))
+    if cred.startswith('rsa:'):
+        method, data = 1, rsa_sign(keys[cred[4:]][0], octs)
+    else:
+        method, data = 2, p.auth_psk(b'psk-of-connection-two', idt, idd)
+    child = [{'type': 1, 'id': 12, 'keylen': 256}, {'type': 3, 'id': 12, 'keylen': None}, {'type': 5, 'id': 0, 'keylen': None}]
+    import ipaddress as _ip
+    sa_, da_ = _ip.ip_address(src).packed, _ip.ip_address(dst).packed
+    tsi = [{'tstype': 7, 'ipproto': 6, 'sport': 0, 'eport': 65535, 'saddr': sa_, 'eaddr': sa_}]
+    tsr = [{'tstype': 7, 'ipproto': 6, 'sport': 23, 'eport': 23, 'saddr': da_, 'eaddr': da_}]
+    n0 = newsa_count(g)
+    sim.inject(g, src, dst, p.auth_request(idt, idd, method, data, child, 3, tsi, tsr, True))
+    sim.net.clear()
+    est = any(10 <= x.state.value < 21 and str(x.peer_addr) == src and str(x.my_addr) == dst for x in g.ctl.ike_sas)
+    inst = newsa_count(g) - n0
+    if valid is None:
+        ck.count('busy_gateway.pair_without_a_connection')
+        if est or inst:
+            ck.violation('busy-gateway:established-between-a-pair-of-addresses-that-has-no-connection', {'from': src, 'to': dst}, sim.case)
+        return
+    if valid and not est:
+        ck.violation(f'busy-gateway:credential-of-the-connection-between-these-addresses-refused:{cred.split(":")[0]}', {'from': src, 'to': dst, 'states': [x.state.name for x in g.ctl.ike_sas]}, sim.case)
+    elif valid:
+        ck.count('busy_gateway.own_credential_accepted')
+    if not valid and (est or inst):
+        ck.violation(f'established-with-the-credential-of-a-neighbouring-connection:{cred.split(":")[0]}', {'from': src, 'to': dst, 'credential': cred, 'newsa': inst}, sim.case)
+    elif not valid:
+        ck.count('busy_gateway.neighbours_credential_refused')
+
+
 # ---------------------------------------------------------------------------------------- (C) man in the middle
 
 def rewrites(rng, data):
@@ -774,6 +854,10 @@ def run(ck):
                 n += 1
                 if ck.mine(n) and skip_auth_initiator_case(ck, base + n, vi, ck.rng('skipi', n), auth) == 'done':
                     pass
+    for vi in range(4 * len(BUSY_CASES) if not thorough else 40 * len(BUSY_CASES)):
+        n += 1
+        if ck.mine(n):
+            busy_gateway_case(ck, base + n, vi, ck.rng('busy', n))
     # (C)
     for ci, conf in enumerate(MITM_CONFS):
         for which in ('request', 'response'):
@@ -828,5 +912,7 @@ def verdict(ck):
     ck.floor('mismatch handshakes', c['mismatch.handshakes'], 30)
     ck.floor('exchanges sent in place of IKE_AUTH', c['skipauth.variants'], 20)
     ck.floor('protected messages sent to a real initiator in place of a complete IKE_AUTH response', c['skipauth.initiator_variants'], 50)
+    ck.floor('busy gateway: credentials of a neighbouring connection presented and refused', c['busy_gateway.neighbours_credential_refused'], 20)
+    ck.floor('busy gateway: credentials of the own connection accepted (control)', c['busy_gateway.own_credential_accepted'], 12)
     ck.floor('accepted AUTH re-verified online', c['mismatch.auth_reverified'], 6)
     return {'rewrite_labels': len(ck.sets['mitm.rewrites'])}
